@@ -73,26 +73,6 @@ def lookup (m : List (Nat × List Nat)) (k : Nat) : List Nat :=
 def setKey (m : List (Nat × List Nat)) (k : Nat) (v : List Nat) : List (Nat × List Nat) :=
   (m.filter (·.1 != k)) ++ [(k, v)]
 
-/-- ↔ `captured_nodes`: breadth-first from the sources; a node is (re)processed every time it is
-    popped, with whatever its dependencies have accumulated by then. -/
-def capturedLoop (g : Graph) : Nat → List Nat → List Nat → List (Nat × List Nat) → List (Nat × List Nat)
-  | 0, _, _, cap => cap
-  | _, [], _, cap => cap
-  | fuel + 1, n :: queue, visited, cap =>
-    let visited := if visited.contains n then visited else visited ++ [n]
-    let nd := g.node n
-    let deps := ((g.inEdges n).filter Edge.isData).map (·.src)
-    let cap := deps.foldl (fun cap d =>
-      let cur := lookup cap n
-      let cur := if nd.tied.contains d then union cur (lookup cap d) else cur
-      let cur := if nd.direct.contains d then union cur [d] else cur
-      if cur.isEmpty && !(cap.any (·.1 == n)) then cap else setKey cap n cur) cap
-    let next := (g.outEdges n).map (·.dst) |>.filter (fun t => !visited.contains t)
-    capturedLoop g fuel (queue ++ next) visited cap
-
-def captured (g : Graph) : List (Nat × List Nat) :=
-  capturedLoop g (g.size * g.size + g.edges.length + 1) g.sources [] []
-
 /-- a processing order in which every node comes after all its successors (↔ the post-order DFS). -/
 def postOrderLoop (g : Graph) : Nat → List Nat → List Nat
   | 0, done => done
@@ -102,6 +82,21 @@ def postOrderLoop (g : Graph) : Nat → List Nat → List Nat
     | none => done
 
 def postOrder (g : Graph) : List Nat := postOrderLoop g g.size []
+
+/-- one node of `captured_nodes`: what the output of `n` holds a reference to, given what its
+    dependencies hold. -/
+def capturedNode (g : Graph) (cap : List (Nat × List Nat)) (n : Nat) : List (Nat × List Nat) :=
+  let nd := g.node n
+  let deps := ((g.inEdges n).filter Edge.isData).map (·.src)
+  let cur := deps.foldl (fun cur d =>
+    let cur := if nd.tied.contains d then union cur (lookup cap d) else cur
+    if nd.direct.contains d then union cur [d] else cur) []
+  if cur.isEmpty then cap else setKey cap n cur
+
+/-- ↔ `captured_nodes` (after fix f51fe0e): nodes are examined in topological order, each after all
+    its dependencies, so the transitive captures are complete. -/
+def captured (g : Graph) : List (Nat × List Nat) :=
+  (postOrder g).reverse.foldl (capturedNode g) []
 
 structure MwbState where
   g : Graph
